@@ -198,7 +198,10 @@ impl Directory {
     )]
     #[cfg_async_filter]
     async fn fn_name(&self, output: &mut input_traits, compression: Compression) -> Result<()> {
-        let mut writer = compress(compression, output)?;
+        // The directory is encoded into memory first: a compression encoder finishes its stream
+        // when it is dropped and can not report an I/O error of `output` at that point.
+        let mut buffer = Vec::<u8>::new();
+        let mut writer = compress(compression, &mut buffer)?;
 
         write_varint([writer], [self.entries.len()])?;
 
@@ -240,6 +243,9 @@ impl Directory {
         }
 
         add_await([writer.flush()])?;
+        drop(writer);
+
+        add_await([output.write_all(&buffer)])?;
 
         Ok(())
     }
